@@ -109,6 +109,14 @@ STATEMENT_STATUS: Dict[str, str] = {
     "header_ignored": "proved: the FontFile bytes have no influence unless the font is non-Type3, non-standard-14 and "
                       "has no Encoding entry",
     "exampleHeader_puts / put_underflow_ignored / odd_dict_raises": "proved by kernel evaluation of the tokeniser model on concrete headers",
+    "name2unicode_exact / name2unicode_exact_pdfminer / pdfminerAgl_judged / pdfminerAgl_deviations":
+        "proved: name2unicode on EVERY glyph name = AGL section 2 with exactly two deviations (either-case hexadecimal "
+        "digits; a component without a value makes the name undefined); on judged names this is AGL itself",
+    "enc_text_all / encoding_text_all / C06_unicode_precedence_all / C06_text_precedence_all / C06_width_precedence_all / "
+    "specP_judged / C06_precedence_all_pdfminer":
+        "proved: the FULL statements - every font dictionary of the modelled shape, every code, NO judged-domain "
+        "hypothesis (glyph names by the exact algorithm, ToUnicode by the exact rule); equal to the property's "
+        "specification on the judged cells",
     "tounicode_exact / tounicode_exact_noclash / tounicode_last_wins_cex": "proved: for EVERY ToUnicode map the value of a code is "
         "the most recent definition except that U+00A0 does not replace U+0020; equals 'last wins' without such a pair; "
         "'last wins' proved false in general (documented deviation of pdfminer)",
@@ -291,6 +299,35 @@ def agl_spec(name: Optional[str]) -> str:
         return ""
     base = name.split(".")[0] if "." in name else name
     return "".join(agl_component(c) for c in base.split("_"))
+
+
+def agl_exact_component(c: str) -> str:
+    """One component under pdfminer's documented deviation (D1): hexadecimal digits of either case."""
+    gl = data()["gl"]
+    if c in gl:
+        return gl[c]
+    if c.startswith("uni"):
+        r = c[3:]
+        if r and all(ch in AHEX for ch in r) and len(r) % 4 == 0:
+            vals = [int(r[i:i + 4], 16) for i in range(0, len(r), 4)]
+            if all(_scalar(v) for v in vals):
+                return "".join(map(chr, vals))
+    if c.startswith("u"):
+        r = c[1:]
+        if 4 <= len(r) <= 6 and all(ch in AHEX for ch in r):
+            v = int(r, 16)
+            if _scalar(v):
+                return chr(v)
+    return ""
+
+
+def agl_exact(name: Optional[str]) -> str:
+    """The exact algorithm of theorem `name2unicode_exact` (Lean `pdfminerAgl`), written independently: AGL section 2
+    with (D1) either-case hexadecimal digits and (D2) a component without a value makes the name undefined ('')."""
+    if name is None:
+        return ""
+    vals = [agl_exact_component(c) for c in name.split(".")[0].split("_")]
+    return "" if any(v == "" for v in vals) else "".join(vals)
 
 
 def _lenient_component(c: str) -> bool:
@@ -484,9 +521,10 @@ def font_spec_eval(fs: Dict[str, Any]) -> List[Tuple[Optional[str], Optional[F]]
                 text = None
             else:
                 s = name_of_tok(nm)
-                if not agl_domain(s):
-                    judged = False
-                t = agl_spec(s)
+                # every glyph name is judged (round 6): the exact algorithm; inside the AGL domain it IS AGL
+                t = agl_exact(s)
+                if agl_domain(s) and t != agl_spec(s):
+                    t = agl_spec(s)           # cannot happen (theorem pdfminerAgl_judged); keeps the AGL oracle in force
                 text = t if t != "" else None
         shown = text if text is not None else PLACEHOLDER % code
         # advance
@@ -1310,6 +1348,17 @@ def check_names(ctx: C.Ctx, names: List[Tuple[Any, List[str]]], label: str = "")
                      "impl_value": impl.startswith("V"), "spec_value": exp.startswith("V")}))
         else:
             ctx.branch("name:outside-judged-domain")
+        # (prop, every name) implementation against the exact algorithm AGL + (D1) + (D2)
+        expx = reply_of_spec_text(agl_exact(s))
+        if got != expx:
+            cfail(ctx, C.Failure(
+                "name2unicode differs from the exact glyph-name algorithm (AGL with either-case hexadecimal digits; "
+                "a component without a value makes the name undefined)",
+                {"op": "name", "name": name_arg(tok)}, expx, impl,
+                {"op": "name", "kinds": kinds, "raised": impl.startswith("EXC"), "exact": True,
+                 "impl_value": impl.startswith("V"), "spec_value": expx.startswith("V")}))
+        lines.append("aglx " + name_arg(tok))
+        meta.append(("aglx", tok, expx))
         lines.append("n2u " + name_arg(tok))
         meta.append(("n2u", tok, impl))
         lines.append("agl " + name_arg(tok))
@@ -1318,7 +1367,7 @@ def check_names(ctx: C.Ctx, names: List[Tuple[Any, List[str]]], label: str = "")
         outs = ctx.driver.ask(lines)
         for (op, tok, mine), m_out in zip(meta, outs):
             if mine != m_out:
-                ctx.disagree(op if op == "n2u" else "spec-twin:agl", {"name": name_arg(tok)}, mine, m_out)
+                ctx.disagree(op if op == "n2u" else "spec-twin:" + op, {"name": name_arg(tok)}, mine, m_out)
 
 
 def run_names(ctx: C.Ctx) -> None:
@@ -1444,6 +1493,8 @@ def parse_font_reply(line: str) -> Any:
         if c == "?":
             cells.append((None, None))
             continue
+        if c.startswith("!"):                 # a cell outside the property's AGL domain: judged by the exact algorithm
+            c = c[1:]
         t, w = c.split("|")
         cells.append(("" if t == "-" else "".join(chr(int(x, 16)) for x in t.split(",")), F(w)))
     return cells
